@@ -453,6 +453,10 @@ func vcRun(t *testing.T, c *vfCase, st *vfStats) {
 				del.meta = []byte(vcMetas[op[1]])
 				m.UpdateNode(time.Millisecond)
 				st.OpHist["update"]++
+			case 13:
+				// the application's metadata changes; it has not (yet) called UpdateNode: nothing may change
+				del.meta = []byte(vcMetas[op[1]])
+				st.OpHist["metaPending"]++
 			case 12:
 				// the application shuts the node down; claims already on their way, timers and reaping go on
 				m.Shutdown()
@@ -591,6 +595,10 @@ func vcGen(r *vfRng) vfCase {
 			vk = int64(r.n(len(vcVsns)))
 		}
 		p := r.n(100)
+		if r.chance(3) {
+			c.Ops = append(c.Ops, []int64{13, meta})
+			continue
+		}
 		if down && p >= 90 {
 			p = 73 + p%13 // after Shutdown: no further API calls (Leave after Shutdown is documented to panic)
 		}
